@@ -197,3 +197,48 @@ def idx_bijection(ck, ctx):
     ok = all(v and v[0] == "int" for v in vals) and sorted(v[1] for v in vals) == list(range(len(counted)))
     ck.ob("idx", "bijection", ok, "StateCounts::idx: %s" % {k: (v[1] if v and v[0] == "int" else v) for k, v in m.items()}, span=body.loc, fn=body.nname)
     ck.ob("idx", "unknown-not-counted", m.get("Unknown") == ("diverge",), "Unknown has no counter slot (idx diverges)", span=body.loc, fn=body.nname)
+
+
+def state_predicate_table(F, fn):
+    """truth table {state: bool} of a bool-returning BuildStates helper that inspects the state of one build id,
+    by finite-domain interpretation; None if the function is not of that shape"""
+    body = F.body(fn)
+    if body is None or body.locals[0]["s"] != "bool":
+        return None
+    variants = frozenset(F.variants(STATE))
+
+    def on_call(eng, st, bb, t, callee, args):
+        if callee.endswith("Index<K>>::index") or callee.endswith("IndexMut<K>>::index_mut"):
+            a = args[0]
+            if a and a[0] == "pl" and a[1].endswith("work::BuildStates.states"):
+                s2 = st.copy()
+                s2.syms.setdefault("st", variants)
+                return [(s2, ("refv", ("sym", "st")))]
+        if callee == "work::BuildStates::get":
+            s2 = st.copy()
+            s2.syms.setdefault("st", variants)
+            return [(s2, ("sym", "st"))]
+        return None
+
+    eng = PathInt(F, body, on_call=on_call)
+    init = {}
+    for i in range(1, body.argc + 1):
+        init[i] = ("pl", body.local_name(i)) if body.locals[i]["s"].startswith("&") else ("op", body.local_name(i))
+    try:
+        res = eng.run(init, {})
+    except (Unsupported, PathExplosion):
+        return None
+    table = {}
+    for kind, st in res:
+        if kind != "return" or "st" not in st.syms:
+            return None
+        v = st.vals.get(0)
+        if v is None or v[0] != "bool":
+            return None
+        if any(e[0] in ("call", "write", "add", "opaque-branch") for e in st.events):
+            return None
+        for s_ in st.syms["st"]:
+            if s_ in table and table[s_] != v[1]:
+                return None
+            table[s_] = v[1]
+    return table if set(table) == set(variants) else None
